@@ -76,17 +76,32 @@ def one_call(sut, call, presented):
 def handle(sut, req):
     inputs, calls = req["inputs"], req["calls"]
 
+    def change(built, c):
+        spec = inputs[c["mutate"]]
+        sut.set_value(built, c["index"], c["value"], spec.get("den", 1))
+
     def whole_history():
         built = [build_input(sut, s) for s in inputs]
-        return [one_call(sut, c, built[c["input"]]) for c in calls]
+        out = []
+        for c in calls:
+            if "mutate" in c:           # the caller changes a value of an input object it goes on using
+                change(built[c["mutate"]], c)
+                out.append({"mutated": True, "args_untouched": True})
+            else:
+                out.append(one_call(sut, c, built[c["input"]]))
+        return out
 
     def alone(i):
-        def run():
-            c = calls[i]
-            return one_call(sut, c, build_input(sut, inputs[c["input"]]))
+        def run():                      # same object construction and the same caller-side changes, but no earlier CALL
+            j = calls[i]["input"]
+            built = build_input(sut, inputs[j])
+            for c in calls[:i]:
+                if c.get("mutate") == j:
+                    change(built, c)
+            return one_call(sut, calls[i], built)
         return run
     history = fork_eval(whole_history)
-    refs = [fork_eval(alone(i)) for i in range(len(calls))]
+    refs = [({"mutated": True, "args_untouched": True} if "mutate" in calls[i] else fork_eval(alone(i))) for i in range(len(calls))]
     return {"history": history, "references": refs}
 
 
